@@ -270,6 +270,22 @@ func runCase(out *bufio.Writer, bin, work string, index int, casefile string) (o
 	inFn := filepath.Join(dir, "in.h5")
 	outFn := filepath.Join(dir, "out.h5")
 	finalFn := filepath.Join(dir, "final_states.h5")
+	switch c.FinalStatesMode {
+	case 2: // the file the initial states come from
+		if c.LayoutSt != 0 {
+			finalFn = filepath.Join(dir, "states.h5")
+		} else {
+			finalFn = inFn
+		}
+	case 3:
+		finalFn = inFn
+	case 4:
+		if c.LayoutTS != 0 {
+			finalFn = filepath.Join(dir, "ts.h5")
+		} else {
+			finalFn = inFn
+		}
+	}
 	splitFn := func(m string) string { return filepath.Join(dir, "split_"+m+".h5") }
 
 	// what goes where (LAYOUT): the structure file keeps the real table (0), nothing (1) or a decoy (2)
